@@ -92,3 +92,4 @@ def hybrid_witness(nProcs: int, a: int, b: int) -> List[int]:
     post: False
     """
     return BlockDecomposition(nProcs, [a, b], algo='Hybrid').nBlocks
+
